@@ -14,6 +14,11 @@ R2  spec->code: TLC enumerates the property's argument grid (dims {-1,0,1,2,3,5}
     the slices with cap == len inside a canary arena, calls blas/gonum.Implementation in all four
     precisions (and the LAPACK routines) under recover and compares outcome class
     (returned / package panic / runtime.Error / foreign panic), operand bytes and canaries.
+    LAPACK (53 prologues incl. the drivers whose minimum lengths depend on job flags and on
+    min/max of the dimensions, nine also through lapack64) additionally gets a deterministic
+    boundary grid: every legal flag combination x shapes with dimensions 0..3 x lwork minimal and
+    queried, every slice exactly minimal (accepted) and each slice in turn one element short
+    (rejected, operands unchanged).
 """
 import json
 import os
@@ -41,6 +46,9 @@ LAPACK = [
                                 "Dtrtri", "Dtrti2", "Dtrtrs"]),
     ("QR+LQ", ["Dgeqrf", "Dgeqr2", "Dgelqf", "Dgelq2", "Dorgqr", "Dorg2r", "Dorglq", "Dorgl2"]),
     ("apply-Q+reflectors", ["Dormqr", "Dorm2r", "Dormlq", "Dorml2", "Dlarft", "Dlarfb", "Dlarf"]),
+    ("drivers", ["Dgels", "Dgesvd", "Dsyev", "Dgeev", "Dgtsv", "Dptsv", "Dpbtrs", "Dpbtrf", "Dtbtrs"]),
+    ("reductions+generators", ["Dgeqp3", "Dgebrd", "Dsytrd", "Dgehrd", "Dorgbr", "Dorgtr", "Dorghr", "Dormbr", "Dormhr"]),
+    ("norms+condition+aux", ["Dlacpy", "Dlaset", "Dlange", "Dlansy", "Dlantr", "Dtrcon", "Dgecon", "Dpocon"]),
 ]
 
 
@@ -101,20 +109,34 @@ def run(ctx):
         return f
 
     # ---- R2: LAPACK tuples ----------------------------------------------------------------
+    # per group: the stratified sample of the property's grid plus the boundary grid (every legal flag
+    # combination x every legal shape with dimensions in 0..3 x lwork minimal/queried: all slices exactly
+    # minimal, and each slice in turn one element short); both files are replayed as one
     def r2_lapack(fams, target, label):
         def f():
-            cases = ctx.gen("contract/LapackContractGen.tla", "contract/LapackContractGen.cfg", workers=workers,
-                            name="R2 gen LAPACK " + label, timeout=2400,
-                            subst=dict(ROUTINES=sset(fams), SEED=ctx.seed, TARGET=target, EMIT="TRUE"))
+            base = dict(ROUTINES=sset(fams), SEED=ctx.seed, EMIT="TRUE", BDIMS=tset([0, 1, 2, 3]),
+                        BLD=tset([0, 2] if thorough else [0]))
+            sample = ctx.gen("contract/LapackContractGen.tla", "contract/LapackContractGen.cfg", workers=workers,
+                             name="R2 gen LAPACK sample " + label, timeout=2400,
+                             subst=dict(base, MODE="sample", TARGET=target))
+            bound = ctx.gen("contract/LapackContractGen.tla", "contract/LapackContractGen.cfg", workers=workers,
+                            name="R2 gen LAPACK boundary " + label, timeout=2400,
+                            subst=dict(base, MODE="boundary", TARGET=0, SEED=1))
+            both = os.path.join(ctx.work, "lapack-%s.ndjson" % "".join(ch for ch in label if ch.isalnum()))
+            with open(both, "w") as fo:
+                for part in (sample, bound):
+                    with open(part) as fi:
+                        for line in fi:
+                            fo.write(line)
             for bn, _ in builds:
-                summ = ctx.replay(bins[bn], "contract", cases, ["build=" + bn], name="R2 replay LAPACK %s [%s]" % (label, bn))
+                summ = ctx.replay(bins[bn], "contract", both, ["build=" + bn], name="R2 replay LAPACK %s [%s]" % (label, bn))
                 check_vacuity(ctx, summ, "LAPACK " + label)
             if thorough:
-                scratch.append(cases)
+                scratch.append(sample)
         return f
 
     stages = [r1_addr, r1_table(False), r1_table(True)]
-    ltarget = 12000 if thorough else 700
+    ltarget = 8000 if thorough else 600
     for label, fams in LAPACK:
         stages.append(r2_lapack(fams, ltarget, label))
     target = 6000 if thorough else 500
